@@ -32,3 +32,15 @@ add("C14", "exploration", "differential/round-trip property testing against an i
 add("C15", "exploration", "round-trip property testing + hand-built JSON against a reference identifier rule",
     "Every message kind round-trips through text and binary frames for arbitrary SDP and ids; encoder output is inspected with serde_json; hand-built JSON with identifier strings of 0..40 chars in every id-bearing field is accepted iff exactly 20 chars <= U+00FF.",
     "Hand-built JSON uses raw UTF-8 or \\u escapes (incl. surrogate pairs).")
+add("C03", "exploration", "property testing: canonicalisation vs std, constructed header layouts through the real parser into real storage, metamorphic in-request-ip histories",
+    "Address canonicalisation compared with std over mapped and near-miss addresses; HTTP requests built from generated header layouts (several occurrences, comma lists, blanks, victim ip= parameters) go through the real parse_request into real storage and are read back by an observer; UDP storage histories with arbitrary in-request ip fields and v4/v6/mapped sources agree with a model keyed by canonical source IP. Socket-level configurations are covered by the e2e sub-check when present.",
+    "The peer address passed to HTTP storage is computed as connection.rs does; reverse-proxy requests without a valid header panic by documented design and are not generated.")
+add("C06", "exploration", "stateful property testing over loopback sockets against running trackers (reference decoder + swarm model, transaction-id attribution, raw-socket source port 0)",
+    "Generated datagram histories from six loopback sockets against running mio and io_uring trackers; every datagram carries a unique transaction id, replies are attributed by it and compared with an independent BEP 15 decoder and the swarm model: at most one reply, only to the sender, none without an id valid for the source IP, exact scrape truncation. Source port 0 is sent through a raw socket with ordinary-port controls.",
+    "Timing only bounds waits (fence connect per datagram); a missed fence is reported as undecided (exit 2), never as violation. ENOBUFS resend path unreachable on loopback.")
+add("C16", "exploration", "stateful property testing over TCP against running trackers (strict HTTP framing reader + canonical bencode reader + one reference swarm model)",
+    "Generated request histories over up to six open connections against running aquatic_http instances for several socket/swarm worker counts; replies are read by a strict framing reader and a strict bencode reader and compared with one reference tracker; malformed/oversized requests go to other connections.",
+    "REUSEPORT distribution and TCP segmentation are sampled; sequential within a history, concurrent across harness threads.")
+add("C20", "exploration", "model-based property testing of statistics/export + fault enumeration of export steps (process abort at every probe, reader at every probe)",
+    "Histories with statistics, per-client tallies and exports on are compared with the model after every clean; the export is crashed (child process abort) and observed (reader) at every individual step for generated scenarios and four path shapes, and the configured path must always hold the complete old or complete new export.",
+    "Crash = process abort (no power-loss semantics); the statistics worker's fold rule is reproduced in the harness.")
